@@ -66,6 +66,11 @@ def check_call(fn, call, rule):
                     if not inrange and not abort_only(fn, sb):
                         bad.append('the edge taken when the hash result is >= the table size (%s -> %s) does not lead to abort()' % (br.block.name, s))
             continue
+        if u.op == 'phi':
+            # a merge uses the value at the end of the block it comes from
+            if all(('ult', r, m) in pv.fc.edge_facts(fn.bb[bb], u.block) or pv.prove_at(('ult', r, m), fn.bb[bb].term)
+                   for v_, bb in zip(u.o, u.x['bb']) if v_ == r):
+                continue
         if not pv.prove_at(('ult', r, m), u):
             bad.append('use of the hash result at %s (%s) is not dominated by the range check `result < %s`' % (u.loc(), u.op, fn.vname(call.o[1])))
     if guards == 0 and not bad:
@@ -111,6 +116,11 @@ def run(m, rep, tier):
             nsub += 1
             idx = path[0]['idx']
             if idx in checked:
+                continue
+            # an index carried through merges (the lookup converts to a bucket once at the end): every alternative is a checked result
+            from ..treewalk import _leaves
+            lv = [x for x in _leaves(f, idx)]
+            if lv and all(x in checked for x in lv):
                 continue
             # sweep index: must be proven below a bucket count loaded from the table
             def below(facts, pred=None):
